@@ -121,12 +121,14 @@ Fixpoint wire0_fields (fs : list (bool * goty)) : bool :=
   match fs with [] => true | (ex, t) :: r => (negb ex || wire0 t) && wire0_fields r end.
 Fixpoint supported_fields (fs : list (bool * goty)) : bool :=
   match fs with [] => true | (ex, t) :: r => (negb ex || supported t) && supported_fields r end.
-Fixpoint static_fields (fs : list (bool * goty)) : bool :=
-  match fs with [] => true | (ex, t) :: r => (negb ex || static_ty t) && static_fields r end.
+Fixpoint lin_fields (fs : list (bool * goty)) : bool :=
+  match fs with [] => true | (ex, t) :: r => (negb ex || lin_ty t) && lin_fields r end.
 Fixpoint tsize_fields (fs : list (bool * goty)) : N :=
   match fs with [] => 0 | (_, t) :: r => tsize t + tsize_fields r end.
-Fixpoint kconst_fields (fs : list (bool * goty)) : N :=
-  match fs with [] => 0 | (ex, t) :: r => (if ex then kconst t else 0) + kconst_fields r end.
+Fixpoint kK_fields (fs : list (bool * goty)) : N :=
+  match fs with [] => 0 | (ex, t) :: r => (if ex then kK t else 0) + kK_fields r end.
+Fixpoint kA_fields (fs : list (bool * goty)) : N :=
+  match fs with [] => 0 | (ex, t) :: r => (if ex then kA t else 0) + kA_fields r end.
 
 Lemma wrefl_list_eq ty e l : (ty = TSlice true e \/ ty = TSlice false e \/ exists n, ty = TArray n e) ->
   wrefl ty (VList l) = obind (wlist e l) (fun b => OOk (put_u32 (N.of_nat (length l)) ++ b)).
@@ -142,7 +144,7 @@ Lemma has_type_array n e l : has_typeb (TArray n e) (VList l) = (N.of_nat (lengt
 Proof. reflexivity. Qed.
 Lemma has_type_struct fs l : has_typeb (TStruct fs) (VStruct l) = typed_fields fs l.
 Proof. reflexivity. Qed.
-Lemma fits_slice nm e l : fits (TSlice nm e) (VList l) = (N.of_nat (length l) <? 4294967296) && fits_list e l.
+Lemma fits_slice nm e l : fits (TSlice nm e) (VList l) = (N.of_nat (length l) <? 4294967296) && (negb (wire0 e) || (N.of_nat (length l) =? 0)) && fits_list e l.
 Proof. reflexivity. Qed.
 Lemma fits_array n e l : fits (TArray n e) (VList l) = fits_list e l.
 Proof. reflexivity. Qed.
@@ -160,11 +162,13 @@ Lemma wire0_struct fs : wire0 (TStruct fs) = wire0_fields fs.
 Proof. reflexivity. Qed.
 Lemma supported_struct fs : supported (TStruct fs) = supported_fields fs.
 Proof. reflexivity. Qed.
-Lemma static_struct fs : static_ty (TStruct fs) = static_fields fs.
+Lemma lin_struct fs : lin_ty (TStruct fs) = lin_fields fs.
 Proof. reflexivity. Qed.
 Lemma tsize_struct fs : tsize (TStruct fs) = tsize_fields fs.
 Proof. reflexivity. Qed.
-Lemma kconst_struct fs : kconst (TStruct fs) = tsize_fields fs + kconst_fields fs.
+Lemma kK_struct fs : kK (TStruct fs) = tsize_fields fs + kK_fields fs.
+Proof. reflexivity. Qed.
+Lemma kA_struct fs : kA (TStruct fs) = kA_fields fs.
 Proof. reflexivity. Qed.
 
 (** * the cost monad *)
@@ -233,48 +237,30 @@ Proof.
   - destruct ty; try discriminate Ht; cbn [wrefl]; auto.
 Qed.
 
-Lemma write_total ty v : has_typeb ty v = true ->
-  okerr (write ty v) \/ (exists b, ty = TPtr (TBasic b) /\ v = VNil /\ write ty v = OPanic WNilDeref).
+Lemma write_total ty v : has_typeb ty v = true -> okerr (write ty v).
 Proof.
   intros Ht.
-  destruct ty as [b| | | |nm e| | |e| | | |]; cbn [write]; try (left; apply wrefl_total; exact Ht).
-  - left. destruct (wprim_ok b v (has_type_basic _ _ Ht)) as [bs ->]; auto.
-  - destruct nm; [left; apply wrefl_total; exact Ht|].
-    destruct e as [b| | | | | | | | | | |]; try (left; apply wrefl_total; exact Ht).
-    destruct b; try (left; apply wrefl_total; exact Ht).
-    destruct v; try discriminate Ht; left; auto.
-  - destruct e as [b| | | |nm e| | | | | | |]; try (left; apply wrefl_total; exact Ht).
-    + destruct v; try discriminate Ht.
-      * right. exists b. auto.
-      * left. cbn [has_typeb] in Ht. destruct (wprim_ok b v (has_type_basic _ _ Ht)) as [bs ->]; auto.
-    + destruct nm; [left; apply wrefl_total; exact Ht|].
-      destruct e as [b| | | | | | | | | | |]; try (left; apply wrefl_total; exact Ht).
-      destruct b; try (left; apply wrefl_total; exact Ht).
-      destruct v; try discriminate Ht; [left; auto|].
-      cbn [has_typeb] in Ht. destruct v; try discriminate Ht; left; auto.
+  destruct ty as [b| | | |nm e| | |e| | | |]; cbn [write]; try (apply wrefl_total; exact Ht).
+  - destruct (wprim_ok b v (has_type_basic _ _ Ht)) as [bs ->]; auto.
+  - destruct nm; [apply wrefl_total; exact Ht|].
+    destruct e as [b| | | | | | | | | | |]; try (apply wrefl_total; exact Ht).
+    destruct b; try (apply wrefl_total; exact Ht).
+    destruct v; try discriminate Ht; auto.
+  - destruct e as [b| | | |nm e| | | | | | |]; try (apply wrefl_total; exact Ht).
+    + destruct v; try discriminate Ht; auto.
+      cbn [has_typeb] in Ht. destruct (wprim_ok b v (has_type_basic _ _ Ht)) as [bs ->]; auto.
+    + destruct nm; [apply wrefl_total; exact Ht|].
+      destruct e as [b| | | | | | | | | | |]; try (apply wrefl_total; exact Ht).
+      destruct b; try (apply wrefl_total; exact Ht).
+      destruct v; try discriminate Ht; auto.
+      cbn [has_typeb] in Ht. destruct v; try discriminate Ht; auto.
 Qed.
 
-Definition nil_basic_ptr (p : goty * goval) : bool :=
-  match p with (TPtr (TBasic _), VNil) => true | _ => false end.
-Lemma write_okerr ty v : has_typeb ty v = true -> nil_basic_ptr (ty, v) = false -> okerr (write ty v).
-Proof.
-  intros Ht Hn. destruct (write_total ty v Ht) as [H|(b & -> & -> & _)]; [exact H|discriminate Hn].
-Qed.
-Lemma write_from_okerr l : forallb (fun p => has_typeb (fst p) (snd p)) l = true -> forallb (fun p => negb (nil_basic_ptr p)) l = true ->
-  okerr (write_from l).
-Proof.
-  induction l as [|[t v] r IH]; cbn [forallb write_from fst snd]; [auto|].
-  intros H1 H2. apply andb_prop in H1 as [H1 H1']. apply andb_prop in H2 as [H2 H2'].
-  apply okerr_obind; [apply write_okerr; [exact H1|destruct (nil_basic_ptr (t, v)); [discriminate|reflexivity]]|].
-  intros b _. apply okerr_obind; [apply IH; assumption|auto].
-Qed.
-Lemma write_from_total l : forallb (fun p => has_typeb (fst p) (snd p)) l = true ->
-  okerr (write_from l) \/ write_from l = OPanic WNilDeref.
+Lemma write_from_total l : forallb (fun p => has_typeb (fst p) (snd p)) l = true -> okerr (write_from l).
 Proof.
   induction l as [|[t v] r IH]; cbn [forallb write_from fst snd]; [auto|].
   intros H1. apply andb_prop in H1 as [H1 H1'].
-  destruct (write_total t v H1) as [[[b ->]|[e ->]]|(b & _ & _ & ->)]; cbn [obind]; auto.
-  destruct (IH H1') as [[[b' ->]|[e ->]]| ->]; cbn [obind]; auto.
+  apply okerr_obind; [apply write_total; exact H1|]. intros b _. apply okerr_obind; [apply IH; assumption|auto].
 Qed.
 
 (** * C13 (b): the reader is total on every byte string *)
@@ -356,7 +342,8 @@ Proof.
       rewrite fst_tick. cbn [ret fst snd]. left. do 3 eexists. repeat split; eauto. intros _ ->. cbn in Hl. lia.
     + rewrite fst_bindM, fst_liftR. unfold rd_u32.
       destruct (rd_uint 4 bs) as [[n t]|e'] eqn:E; cbn [of_res]; [|right; eauto].
-      destruct (rd_uint_suffix _ _ _ _ E) as (h & -> & Hl). cbn [fst snd]. rewrite fst_tick.
+      destruct (rd_uint_suffix _ _ _ _ E) as (h & -> & Hl). cbn [fst snd].
+      destruct (N.of_nat (length t) <? n); [right; eexists; reflexivity|]. rewrite fst_tick.
       assert (Hh : h <> []) by (intros ->; cbn in Hl; lia).
       destruct (wire0 e) eqn:W.
       * cbn [fst]. left. do 3 eexists. repeat split; eauto.
@@ -399,16 +386,8 @@ Proof.
     cbn [ret fst snd]. left. exists (v :: vs), r2, (h1 ++ h2). rewrite app_assoc. cbn [length]. auto.
 Qed.
 
-Lemma read_call_total tg bs :
-  okerr (read_call tg bs) \/ (read_call tg bs = OPanic WNilDeref /\ exists t, tg = TgtNilPtr t).
-Proof.
-  destruct tg as [ty|ty|]; cbn [read_call]; auto.
-  - left. apply read_okerr.
-  - destruct ty as [b| | | |nm e| | | | | | |]; auto.
-    + destruct (rprim_good b bs) as [(v & r & h & -> & _)|[e ->]]; cbn [obind]; eauto.
-    + destruct nm; auto. destruct e as [b| | | | | | | | | | |]; auto. destruct b; auto.
-      destruct (read_okerr (TSlice false (TBasic BU8)) bs) as [[a ->]|[e ->]]; cbn [obind]; eauto.
-Qed.
+Lemma read_call_total tg bs : okerr (read_call tg bs).
+Proof. destruct tg as [ty|ty|]; cbn [read_call]; auto. apply read_okerr. Qed.
 
 (** * C12: round trip *)
 Lemma nonempty_length {A} (l : list A) k : length l = S k -> l <> [].
@@ -531,16 +510,16 @@ Lemma repeat_to_nat {A} (x : A) k : repeat x (N.to_nat (N.of_nat k)) = repeat x 
 Proof. rewrite Nat2N.id. reflexivity. Qed.
 
 Lemma elems_cont e l : RT e -> typed_list e l = true -> fits_list e l = true ->
-  exists b, wlist e l = OOk b /\
+  exists b, wlist e l = OOk b /\ (wire0 e = false -> (length l <= length b)%nat) /\
     forall rest,
       fst (if wire0 e then (OOk (VList (repeat (zero e) (N.to_nat (N.of_nat (length l)))), b ++ rest), (0, N.of_nat (length l)))
            else bindM (rd_elems (read e) (S (length (b ++ rest))) (N.of_nat (length l)) (b ++ rest)) (fun q => ret (VList (fst q), snd q)))
       = OOk (VList (norm_list e l), rest).
 Proof.
   intros He Ht Hf. destruct (wire0 e) eqn:W.
-  - destruct (elems_wire0 e He W l Ht Hf) as [Hw Hn]. exists []. split; [exact Hw|].
+  - destruct (elems_wire0 e He W l Ht Hf) as [Hw Hn]. exists []. split; [exact Hw|]. split; [discriminate|].
     intros rest. cbn [fst app]. rewrite repeat_to_nat, Hn. reflexivity.
-  - destruct (elems_rt e He W l Ht Hf) as (b & Hw & Hl & Hr). exists b. split; [exact Hw|].
+  - destruct (elems_rt e He W l Ht Hf) as (b & Hw & Hl & Hr). exists b. split; [exact Hw|]. split; [auto|].
     intros rest. rewrite fst_bindM, Hr by (rewrite app_length; lia). reflexivity.
 Qed.
 
@@ -559,10 +538,11 @@ Proof.
       intros rest. cbn [read norm].
       destruct (negb nm && match e with TBasic BU8 => true | _ => false end).
       * rewrite fst_bindM, fst_liftR. change (put_u32 0 ++ rest) with (put_lp4 [] ++ rest). rewrite rd_lp4_put by (cbn; lia). reflexivity.
-      * destruct (elems_cont e [] IH eq_refl eq_refl) as (b & Hw & Hr).
+      * destruct (elems_cont e [] IH eq_refl eq_refl) as (b & Hw & _ & Hr).
         rewrite wlist_nil in Hw. injection Hw as <-.
-        rewrite fst_bindM, fst_liftR, rd_u32_put by lia. cbn [of_res fst snd]. rewrite fst_tick. exact (Hr rest).
-    + rewrite has_type_slice in Ht. rewrite fits_slice in Hf. apply andb_prop in Hf as [Hlen Hf]. apply N.ltb_lt in Hlen.
+        rewrite fst_bindM, fst_liftR, rd_u32_put by lia. cbn [of_res fst snd].
+        replace (N.of_nat (length rest) <? 0) with false by lia. rewrite fst_tick. exact (Hr rest).
+    + rewrite has_type_slice in Ht. rewrite fits_slice in Hf. apply andb_prop in Hf as [Hlen Hf]. apply andb_prop in Hlen as [Hlen Hw0]. apply N.ltb_lt in Hlen.
       rewrite (wrefl_list_eq (TSlice nm e) e) by (destruct nm; auto). rewrite norm_slice.
       destruct (negb nm && match e with TBasic BU8 => true | _ => false end) eqn:Fast.
       * pose proof Fast as Fast'. apply andb_prop in Fast' as [_ Fe].
@@ -573,15 +553,18 @@ Proof.
         change (put_u32 (N.of_nat (length (map byte_of l))) ++ map byte_of l) with (put_lp4 (map byte_of l)).
         rewrite rd_lp4_put by (rewrite map_length; exact Hlen). cbn [of_res fst snd]. rewrite fst_tick. cbn [ret fst].
         rewrite Hm, norm_list_bytes by exact Ht. reflexivity.
-      * destruct (elems_cont e l IH Ht Hf) as (b & Hw & Hr). rewrite Hw. cbn [obind]. eexists. split; [reflexivity|].
+      * destruct (elems_cont e l IH Ht Hf) as (b & Hw & Hlb & Hr). rewrite Hw. cbn [obind]. eexists. split; [reflexivity|].
         split; [apply be4_nonempty|]. intros rest. cbn [read]. rewrite Fast.
-        rewrite fst_bindM, fst_liftR, <- app_assoc, rd_u32_put by exact Hlen. cbn [of_res fst snd]. rewrite fst_tick. exact (Hr rest).
+        rewrite fst_bindM, fst_liftR, <- app_assoc, rd_u32_put by exact Hlen. cbn [of_res fst snd].
+        replace (N.of_nat (length (b ++ rest)) <? N.of_nat (length l)) with false.
+        2:{ symmetry. apply N.ltb_ge. rewrite app_length. destruct (wire0 e); cbn [negb orb] in Hw0; [apply N.eqb_eq in Hw0; lia|specialize (Hlb eq_refl); lia]. }
+        rewrite fst_tick. exact (Hr rest).
   - (* array *)
     cbn [supported] in Hs. apply andb_prop in Hs as [Hn Hs]. apply N.ltb_lt in Hn. specialize (IH Hs). intros v Ht Hf. cbn [wire0].
     destruct v; try discriminate Ht.
     rewrite has_type_array in Ht. apply andb_prop in Ht as [Hlen Ht]. apply N.eqb_eq in Hlen. rewrite fits_array in Hf.
     rewrite (wrefl_list_eq (TArray n e) e) by eauto. rewrite norm_array.
-    destruct (elems_cont e l IH Ht Hf) as (b & Hw & Hr). rewrite Hw. cbn [obind]. eexists. split; [reflexivity|].
+    destruct (elems_cont e l IH Ht Hf) as (b & Hw & _ & Hr). rewrite Hw. cbn [obind]. eexists. split; [reflexivity|].
     split; [apply be4_nonempty|]. intros rest. cbn [read].
     rewrite fst_tick, fst_bindM, fst_liftR, <- app_assoc, rd_u32_put by lia. cbn [of_res fst snd].
     rewrite Hlen, N.eqb_refl. cbn [negb]. rewrite <- Hlen. exact (Hr rest).
@@ -736,107 +719,157 @@ Qed.
 
 (** * C13 (b): allocation and work *)
 Definition remN {A} (o : out (A * bytes)) : N := match o with OOk (_, r) => N.of_nat (length r) | _ => 0 end.
-(** "allocation + 2*remaining <= 2*available + K and iterations <= S" *)
-Definition cb {A} (m : M (A * bytes)) (L K S : N) : Prop :=
-  fst (snd m) + 2 * remN (fst m) <= 2 * L + K /\ snd (snd m) <= S.
+(** bytes requested from the allocator + loop iterations *)
+Definition work {A} (m : M A) : N := fst (snd m) + snd (snd m).
+(** "work + a * remaining <= a * available + K", and the remaining input is not longer than the available *)
+Definition cw {A} (m : M (A * bytes)) (a L K : N) : Prop :=
+  work m + a * remN (fst m) <= a * L + K /\ remN (fst m) <= L.
 
-Lemma cb_weaken {A} (m : M (A * bytes)) L K S K' S' : cb m L K S -> K <= K' -> S <= S' -> cb m L K' S'.
-Proof. unfold cb. lia. Qed.
-Lemma cb_bind {A B} (m : M (A * bytes)) (f : A * bytes -> M (B * bytes)) L K1 S1 K2 S2 :
-  cb m L K1 S1 -> (forall a r, fst m = OOk (a, r) -> cb (f (a, r)) (N.of_nat (length r)) K2 S2) ->
-  cb (bindM m f) L (K1 + K2) (S1 + S2).
+Lemma cw_weaken {A} (m : M (A * bytes)) a L K a' K' : cw m a L K -> a <= a' -> K <= K' -> cw m a' L K'.
 Proof.
-  unfold cb. intros [H1 H2] Hf. rewrite fst_bindM, snd_bindM.
-  destruct (fst m) as [[a r]| | | |] eqn:E; cbn [remN] in *; try lia.
-  destruct (Hf a r eq_refl) as [G1 G2]. unfold cadd. cbn [fst snd]. lia.
+  unfold cw. intros [H1 H2] Ha HK. split; [|exact H2].
+  replace a' with (a + (a' - a)) by lia. set (d := a' - a).
+  assert (d * remN (fst m) <= d * L) by (apply N.mul_le_mono_l; exact H2). nia.
 Qed.
-Lemma cb_tick {A} (m : M (A * bytes)) c L K S : cb m L K S -> cb (tick c m) L (fst c + K) (snd c + S).
-Proof. unfold cb. rewrite fst_tick, snd_tick. unfold cadd. cbn [fst snd]. lia. Qed.
-Lemma cb_ret {A} (a : A) r L : N.of_nat (length r) <= L -> cb (ret (a, r)) L 0 0.
-Proof. unfold cb, ret. cbn [fst snd remN]. lia. Qed.
-Lemma cb_fail {A} e L : cb (@failM (A * bytes) e) L 0 0.
-Proof. unfold cb, failM. cbn [fst snd remN]. lia. Qed.
+Lemma work_bindM {A B} (m : M A) (f : A -> M B) :
+  work (bindM m f) = match fst m with OOk a => work m + work (f a) | _ => work m end.
+Proof. unfold work. rewrite snd_bindM. destruct (fst m); try reflexivity. unfold cadd. cbn [fst snd]. lia. Qed.
+Lemma work_tick {A} c (m : M A) : work (tick c m) = fst c + snd c + work m.
+Proof. unfold work. rewrite snd_tick. unfold cadd. cbn [fst snd]. lia. Qed.
 
-Lemma cb_uint {A} k (f : N -> A) bs : cb (liftR (let* (n, t) := rd_uint k bs in Ok (f n, t))) (N.of_nat (length bs)) 0 0.
+Lemma cw_bind {A B} (m : M (A * bytes)) (f : A * bytes -> M (B * bytes)) a L K1 K2 :
+  cw m a L K1 -> (forall x r, fst m = OOk (x, r) -> cw (f (x, r)) a (N.of_nat (length r)) K2) ->
+  cw (bindM m f) a L (K1 + K2).
 Proof.
-  unfold cb, liftR. cbn [fst snd]. destruct (rd_uint k bs) as [[n t]|e] eqn:E; cbn [bind of_res remN]; [|lia].
-  destruct (rd_uint_suffix _ _ _ _ E) as (h & -> & _). rewrite app_length. lia.
+  unfold cw. intros [H1 H2] Hf. rewrite fst_bindM, work_bindM.
+  destruct (fst m) as [[x r]| | | |] eqn:E; cbn [remN] in *; try lia.
+  destruct (Hf x r eq_refl) as [G1 G2]. split; lia.
 Qed.
+Lemma cw_tick {A} (m : M (A * bytes)) c a L K : cw m a L K -> cw (tick c m) a L (fst c + snd c + K).
+Proof. unfold cw. rewrite fst_tick, work_tick. lia. Qed.
+Lemma cw_ret {A} (x : A) r a L : N.of_nat (length r) <= L -> cw (ret (x, r)) a L 0.
+Proof. unfold cw, work, ret. cbn [fst snd remN]. nia. Qed.
+Lemma cw_fail {A} e a L : cw (@failM (A * bytes) e) a L 0.
+Proof. unfold cw, work, failM. cbn [fst snd remN]. lia. Qed.
 
-Lemma cb_u32 bs : cb (liftR (rd_u32 bs)) (N.of_nat (length bs)) 0 0.
+Lemma cw_u32 bs a : cw (liftR (rd_u32 bs)) a (N.of_nat (length bs)) 0.
 Proof.
-  unfold cb, liftR, rd_u32. cbn [fst snd]. destruct (rd_uint 4 bs) as [[n t]|e] eqn:E; cbn [of_res remN]; [|lia].
-  destruct (rd_uint_suffix _ _ _ _ E) as (h & -> & _). rewrite app_length. lia.
-Qed.
-
-Lemma cb_rprim b bs : cb (rprim b bs) (N.of_nat (length bs)) 0 0.
-Proof.
-  destruct b; unfold rprim, rd_u8, rd_u16, rd_u32, rd_u64, rd_f32, rd_f64, rd_u32, rd_u64; try apply cb_uint.
-  1-4: unfold cb, liftR, rd_i8, rd_i16, rd_i32, rd_i64, rd_u8, rd_u16, rd_u32, rd_u64; cbn [fst snd];
-       match goal with |- context [rd_uint ?k ?x] => destruct (rd_uint k x) as [[n t]|e] eqn:E end; cbn [bind of_res remN]; try lia;
-       destruct (rd_uint_suffix _ _ _ _ E) as (h & -> & _); rewrite app_length; lia.
-  - unfold cb, liftR, rd_bool, rd_u8; cbn [fst snd].
-    destruct (rd_uint 1 bs) as [[n t]|e] eqn:E; cbn [bind of_res remN]; try lia.
-    destruct (rd_uint_suffix _ _ _ _ E) as (h & -> & _); rewrite app_length; lia.
-  - unfold cb. rewrite fst_bindM, snd_bindM, fst_liftR. unfold rd_string.
-    destruct (rd_lp4_good bs) as [(s & r & h & -> & -> & Hl & Hs)|[e ->]]; cbn [of_res liftR fst snd remN]; [|lia].
-    unfold cadd, ret, tick, cadd. cbn [fst snd remN]. rewrite !app_length. lia.
+  unfold cw, work, liftR, rd_u32. cbn [fst snd]. destruct (rd_uint 4 bs) as [[n t]|e] eqn:E; cbn [of_res remN]; [|lia].
+  destruct (rd_uint_suffix _ _ _ _ E) as (h & -> & _). rewrite app_length. nia.
 Qed.
 
-Lemma cb_elems rd K S : (forall bs, cb (rd bs) (N.of_nat (length bs)) K S) ->
-  forall fuel n bs, cb (rd_elems rd fuel n bs) (N.of_nat (length bs)) (n * K) (n * (1 + S)).
+Lemma cw_rprim b bs : cw (rprim b bs) 2 (N.of_nat (length bs)) 0.
 Proof.
-  intros Hrd. induction fuel as [|f IH]; intros n bs; cbn [rd_elems]; destruct (N.eqb_spec n 0) as [->|Hn].
-  - cbn [fst snd]; apply cb_ret; cbn [fst snd]; lia.
-  - unfold cb. cbn [fst snd remN]. lia.
-  - cbn [fst snd]; apply cb_ret; cbn [fst snd]; lia.
-  - replace (n * K) with (K + (0 + ((n - 1) * K + 0))) by nia.
-    replace (n * (1 + S)) with (S + (1 + ((n - 1) * (1 + S) + 0))) by nia.
-    apply cb_bind; [apply Hrd|]. intros a r _. apply (cb_tick _ (0, 1)). cbn [snd].
-    apply cb_bind; [apply IH|]. intros vs r' _. cbn [fst snd]; apply cb_ret; cbn [fst snd]; lia.
+  destruct b; unfold rprim, rd_u8, rd_u16, rd_u32, rd_u64, rd_f32, rd_f64, rd_u32, rd_u64, rd_i8, rd_i16, rd_i32, rd_i64, rd_bool, rd_u8, rd_u16, rd_u32, rd_u64.
+  1-11: unfold cw, work, liftR; cbn [fst snd];
+        match goal with |- context [rd_uint ?k ?x] => destruct (rd_uint k x) as [[n t]|e] eqn:E end; cbn [bind of_res remN]; try lia;
+        destruct (rd_uint_suffix _ _ _ _ E) as (h & -> & _); rewrite app_length; lia.
+  unfold cw. rewrite fst_bindM, work_bindM, fst_liftR. unfold rd_string.
+  destruct (rd_lp4_good bs) as [(s & r & h & -> & -> & Hl & Hs)|[e ->]]; cbn [of_res remN]; unfold work, liftR, ret, tick, cadd; cbn [fst snd remN]; [|lia].
+  rewrite !app_length. lia.
 Qed.
 
-Lemma cb_fields fs : Forall (fun p => static_ty (snd p) = true -> forall bs, cb (read (snd p) bs) (N.of_nat (length bs)) (kconst (snd p)) (kconst (snd p))) fs ->
-  static_fields fs = true -> forall bs, cb (rfields fs bs) (N.of_nat (length bs)) (kconst_fields fs) (kconst_fields fs).
+(** the element loop: each element costs at most [a] per byte it consumes plus [K]; it consumes at least one
+    byte when it succeeds; so the whole loop costs at most [a + K + 1] per byte, whatever the count [n] *)
+Lemma cw_elems rd a K : rd_good true rd -> (forall bs, cw (rd bs) a (N.of_nat (length bs)) K) ->
+  forall fuel n bs,
+    cw (rd_elems rd fuel n bs) (a + K + 1) (N.of_nat (length bs)) K
+    /\ (forall vs r, fst (rd_elems rd fuel n bs) = OOk (vs, r) -> n + N.of_nat (length r) <= N.of_nat (length bs)).
 Proof.
-  induction 1 as [|[ex t] r Hx Hr IH]; intros Hs bs; cbn [rfields kconst_fields].
-  - cbn [fst snd]; apply cb_ret; cbn [fst snd]; lia.
-  - cbn [static_fields] in Hs. apply andb_prop in Hs as [Hs1 Hs2]. cbn [snd] in Hx. destruct ex; cbn [negb orb] in Hs1.
-    + replace (kconst t + kconst_fields r) with (kconst t + (kconst_fields r + 0)) by lia.
-      apply cb_bind; [apply Hx; exact Hs1|]. intros a r1 _. apply cb_bind; [apply IH; exact Hs2|]. intros q r2 _. cbn [fst snd]; apply cb_ret; cbn [fst snd]; lia.
-    + replace (0 + kconst_fields r) with (kconst_fields r + 0) by lia.
-      apply cb_bind; [apply IH; exact Hs2|]. intros q r2 _. cbn [fst snd]; apply cb_ret; cbn [fst snd]; lia.
+  intros Hg Hrd. induction fuel as [|f IH]; intros n bs; cbn [rd_elems]; destruct (N.eqb_spec n 0) as [->|Hn].
+  - split; [apply cw_ret; lia|]. intros vs r H. injection H as _ <-. lia.
+  - split; [unfold cw, work; cbn [fst snd remN]; lia|discriminate].
+  - split; [apply cw_ret; lia|]. intros vs r H. injection H as _ <-. lia.
+  - specialize (Hrd bs). destruct Hrd as [H1 H2].
+    destruct (fst (rd bs)) as [[v r]| | | |] eqn:E.
+    2-5: split; [unfold cw; rewrite fst_bindM, work_bindM, E; cbn [remN] in *; nia|rewrite fst_bindM, E; discriminate].
+    cbn [remN] in H1, H2.
+    assert (Hprog : N.of_nat (length r) + 1 <= N.of_nat (length bs)).
+    { destruct (Hg bs) as [(v' & r' & h & E' & -> & Hh)|[e E']]; [|rewrite E in E'; discriminate].
+      rewrite E in E'. injection E' as <- <-. rewrite app_length. destruct h; [exfalso; apply Hh; reflexivity|cbn [length]; lia]. }
+    destruct (IH (n - 1) r) as [[G1 G2] G3].
+    split.
+    + unfold cw. rewrite fst_bindM, work_bindM, E. cbn [fst snd]. rewrite fst_tick, work_tick, fst_bindM, work_bindM.
+      destruct (fst (rd_elems rd f (n - 1) r)) as [[vs r']| | | |] eqn:E2; cbn [remN fst snd] in *;
+        unfold work, ret in *; cbn [fst snd remN] in *; nia.
+    + intros vs r0. rewrite fst_bindM, E. cbn [fst snd]. rewrite fst_tick, fst_bindM.
+      destruct (fst (rd_elems rd f (n - 1) r)) as [[vs' r']| | | |] eqn:E2; try discriminate.
+      cbn [ret fst snd]. intros H. injection H as _ <-. specialize (G3 vs' r' eq_refl). lia.
 Qed.
 
-Theorem cost_static ty : static_ty ty = true -> forall bs, cb (read ty bs) (N.of_nat (length bs)) (kconst ty) (kconst ty).
+(** the body of the slice case after the length check *)
+Lemma cw_slice_body rd a K n sz t : rd_good true rd -> (forall bs, cw (rd bs) a (N.of_nat (length bs)) K) -> n <= N.of_nat (length t) ->
+  cw (tick (n * sz, 0) (bindM (rd_elems rd (S (length t)) n t) (fun q => ret (VList (fst q), snd q))))
+     (sz + (a + K + 1)) (N.of_nat (length t)) K.
+Proof.
+  intros Hg Hrd Hn. destruct (cw_elems rd a K Hg Hrd (S (length t)) n t) as [[G1 G2] G3].
+  unfold cw. rewrite fst_tick, work_tick, fst_bindM, work_bindM. cbn [fst snd].
+  destruct (fst (rd_elems rd (S (length t)) n t)) as [[vs r]| | | |] eqn:E; cbn [remN fst snd ret] in *;
+    unfold work, ret in *; cbn [fst snd remN] in *; try nia.
+  specialize (G3 vs r eq_refl). nia.
+Qed.
+
+Lemma cw_fields fs :
+  Forall (fun p => lin_ty (snd p) = true -> forall bs, cw (read (snd p) bs) (kA (snd p)) (N.of_nat (length bs)) (kK (snd p))) fs ->
+  lin_fields fs = true -> forall bs, cw (rfields fs bs) (kA_fields fs) (N.of_nat (length bs)) (kK_fields fs).
+Proof.
+  induction 1 as [|[ex t] r Hx Hr IH]; intros Hs bs; cbn [rfields kK_fields kA_fields].
+  - apply cw_ret. lia.
+  - cbn [lin_fields] in Hs. apply andb_prop in Hs as [Hs1 Hs2]. cbn [snd] in Hx. destruct ex; cbn [negb orb] in Hs1.
+    + replace (kK t + kK_fields r) with (kK t + (kK_fields r + 0)) by lia.
+      apply cw_bind; [eapply cw_weaken; [apply Hx; exact Hs1|lia|lia]|]. intros x r1 _.
+      apply cw_bind; [eapply cw_weaken; [apply IH; exact Hs2|lia|lia]|]. intros q r2 _. cbn [fst snd]. apply cw_ret. lia.
+    + replace (0 + kK_fields r) with (kK_fields r + 0) by lia.
+      apply cw_bind; [eapply cw_weaken; [apply IH; exact Hs2|lia|lia]|]. intros q r2 _. cbn [fst snd]. apply cw_ret. lia.
+Qed.
+
+Theorem cost_linear ty : lin_ty ty = true -> forall bs, cw (read ty bs) (kA ty) (N.of_nat (length bs)) (kK ty).
 Proof.
   induction ty as [b|b| | |nm e IH|n e IH|fs IH|e IH| | | |] using goty_ind'; intros Hs bs;
-    try (apply cb_fail).
-  - apply cb_rprim.
-  - cbn [static_ty] in Hs. cbn [read kconst]. rewrite Hs.
-    unfold cb. rewrite fst_bindM, snd_bindM, fst_liftR.
-    destruct (rd_lp4_good bs) as [(s & r & h & -> & -> & Hl & Hsl)|[e' ->]]; cbn [of_res liftR fst snd remN]; [|lia].
-    unfold cadd, ret, tick, cadd. cbn [fst snd remN]. rewrite !app_length. lia.
-  - cbn [static_ty] in Hs. specialize (IH Hs). cbn [read kconst].
-    eapply (cb_weaken _ _ (n * tsize e + (0 + n * (1 + kconst e))) (0 + (0 + n * (1 + kconst e)))); [|lia|lia].
-    apply (cb_tick _ (n * tsize e, 0)). apply cb_bind; [apply cb_u32|]. intros m t _. cbn [fst snd].
-    destruct (negb (m =? n)); [eapply cb_weaken; [apply cb_fail|lia|lia]|].
-    destruct (wire0 e).
-    + unfold cb. cbn [fst snd remN]. nia.
-    + eapply (cb_weaken _ _ (n * kconst e + 0) (n * (1 + kconst e) + 0)); [|nia|lia].
-      apply cb_bind; [apply cb_elems; exact IH|]. intros vs r _. cbn [fst snd]; apply cb_ret; cbn [fst snd]; lia.
-  - rewrite static_struct in Hs. rewrite read_struct_eq, kconst_struct, tsize_struct.
-    eapply (cb_weaken _ _ (tsize_fields fs + (kconst_fields fs + 0)) (0 + (kconst_fields fs + 0))); [|lia|lia].
-    apply (cb_tick _ (tsize_fields fs, 0)). apply cb_bind; [apply cb_fields; assumption|]. intros q r _. cbn [fst snd]; apply cb_ret; cbn [fst snd]; lia.
+    try (apply cw_fail).
+  - apply cw_rprim.
+  - (* slice *)
+    cbn [lin_ty] in Hs. apply andb_prop in Hs as [W Hs]. specialize (IH Hs).
+    assert (W' : wire0 e = false) by (destruct (wire0 e); [discriminate W|reflexivity]).
+    cbn [read kA kK].
+    destruct (negb nm && match e with TBasic BU8 => true | _ => false end).
+    + unfold cw. rewrite fst_bindM, work_bindM, fst_liftR.
+      destruct (rd_lp4_good bs) as [(s & r & h & -> & -> & Hl & Hsl)|[e' ->]]; cbn [of_res remN]; unfold work, liftR, ret, tick, cadd; cbn [fst snd remN]; [|lia].
+      rewrite !app_length. nia.
+    + replace (kK e + 1) with (0 + (kK e + 1)) by lia.
+      apply cw_bind; [apply cw_u32|]. intros n t _. cbn [fst snd].
+      destruct (N.ltb_spec (N.of_nat (length t)) n); [eapply cw_weaken; [apply cw_fail|lia|lia]|].
+      rewrite W'. eapply cw_weaken; [apply (cw_slice_body (read e) (kA e) (kK e) n (tsize e) t)|lia|lia]; auto.
+      pose proof (read_good e) as G. rewrite W' in G. exact G.
+  - (* array *)
+    cbn [lin_ty] in Hs. specialize (IH Hs). cbn [read kA kK].
+    replace (n * tsize e + n + kK e + 1) with (n * tsize e + 0 + (0 + (n + kK e + 1))) by lia.
+    apply (cw_tick _ (n * tsize e, 0)). apply cw_bind; [apply cw_u32|]. intros m t _. cbn [fst snd].
+    destruct (negb (m =? n)); [eapply cw_weaken; [apply cw_fail|lia|lia]|].
+    destruct (wire0 e) eqn:W.
+    + unfold cw, work. cbn [fst snd remN]. nia.
+    + replace (n + kK e + 1) with (kK e + (n + 1)) by lia.
+      apply cw_bind.
+      * pose proof (read_good e) as G. rewrite W in G.
+        destruct (cw_elems (read e) (kA e) (kK e) G IH (S (length t)) n t) as [G1 _]. exact G1.
+      * intros vs r _. cbn [fst snd]. eapply cw_weaken; [apply cw_ret; lia|lia|lia].
+  - (* struct *)
+    rewrite lin_struct in Hs. rewrite read_struct_eq, kK_struct, kA_struct, tsize_struct.
+    replace (tsize_fields fs + kK_fields fs) with (tsize_fields fs + 0 + (kK_fields fs + 0)) by lia.
+    apply (cw_tick _ (tsize_fields fs, 0)). apply cw_bind; [apply cw_fields; assumption|]. intros q r _. cbn [fst snd]. apply cw_ret. lia.
 Qed.
 
-(** reflective slices: allocation and iterations are set by the wire, before any element is read *)
-Lemma slice_cost_wire nm e bs n t :
-  negb nm && match e with TBasic BU8 => true | _ => false end = false -> rd_u32 bs = Ok (n, t) ->
-  n * tsize e <= fst (snd (read (TSlice nm e) bs)) /\ (wire0 e = true -> snd (snd (read (TSlice nm e) bs)) = n).
+Corollary work_linear ty bs : lin_ty ty = true -> work (read ty bs) <= kA ty * N.of_nat (length bs) + kK ty.
+Proof. intros H. destruct (cost_linear ty H bs) as [G _]. lia. Qed.
+
+(** arrays: the loop count and the temporary come from the TYPE; the wire only has to agree *)
+Lemma array_cost n e bs : fst (snd (read (TArray n e) bs)) >= n * tsize e /\
+  (forall m t, rd_u32 bs = Ok (m, t) -> m <> n -> read (TArray n e) bs = (OErr EInvalid, (n * tsize e, 0))).
 Proof.
-  intros Hf E. cbn [read]. rewrite Hf, snd_bindM, fst_liftR, E. cbn [of_res liftR fst snd]. rewrite snd_tick. unfold cadd. cbn [fst snd].
-  split; [lia|]. intros W. rewrite W. cbn [snd]. lia.
+  split.
+  - cbn [read]. rewrite snd_tick. unfold cadd. cbn [fst]. lia.
+  - intros m t E Hm. cbn [read]. unfold tick, bindM, liftR. rewrite E. cbn [of_res fst snd].
+    replace (m =? n) with false by lia. cbn [negb failM fst snd]. unfold cadd. cbn [fst snd]. f_equal. f_equal; lia.
 Qed.
 
 (** * C13 (c): the caller's variables *)
@@ -877,96 +910,3 @@ Proof.
       exists [], ((t, old) :: r), [], bs. repeat split; auto; try discriminate. cbn [hd fst]. rewrite E. discriminate.
 Qed.
 
-(** * witnesses (closed computations) *)
-Definition ex_ty : goty :=
-  TStruct [(true, TBasic BI16); (false, TPtr TInt); (true, TSlice false (TStruct [(true, TBasic BStr); (true, TArray 2 (TBasic BF32))]));
-           (true, TSlice false (TBasic BU8)); (true, TSlice true (TBasic BU8)); (true, TSlice false (TStruct []))].
-Definition ex_val : goval :=
-  VStruct [VZ (-2); VNil;
-           VList [VStruct [VS [104; 105]; VList [VN 2143289344; VN 2147483648]]; VStruct [VS []; VList [VN 0; VN 1]]];
-           VList [VN 1; VN 255]; VNil; VList [VStruct []; VStruct []]].
-Lemma ex_ok : supported ex_ty = true /\ has_typeb ex_ty ex_val = true /\ fits ex_ty ex_val = true /\ norm ex_ty ex_val <> ex_val.
-Proof. repeat split; try (vm_compute; reflexivity). vm_compute. discriminate. Qed.
-
-Lemma w_nil_slice : exists ty v b v', supported ty = true /\ has_typeb ty v = true /\ fits ty v = true /\
-  write ty v = OOk b /\ fst (read ty b) = OOk (v', []) /\ v = VNil /\ v' = VList [].
-Proof. exists (TSlice false (TBasic BI32)), VNil, [0; 0; 0; 0], (VList []). repeat split. Qed.
-
-Lemma w_unexported : exists ty v b v', supported ty = true /\ has_typeb ty v = true /\ fits ty v = true /\
-  write ty v = OOk b /\ fst (read ty b) = OOk (v', []) /\ v = VStruct [VZ 5; VN 1] /\ v' = VStruct [VZ 0; VN 1].
-Proof. exists (TStruct [(false, TBasic BI8); (true, TBasic BU8)]), (VStruct [VZ 5; VN 1]), [1], (VStruct [VZ 0; VN 1]). repeat split. Qed.
-
-Lemma w_pointer_field : exists ty v b, has_typeb ty v = true /\ write ty v = OOk b /\ fst (read ty b) = OErr EUnsupported
-  /\ ty = TStruct [(true, TPtr (TBasic BI8))] /\ v = VStruct [VPtr (VZ 5)].
-Proof. exists (TStruct [(true, TPtr (TBasic BI8))]), (VStruct [VPtr (VZ 5)]), [5]. repeat split. Qed.
-
-Lemma w_nil_pointer_field : exists ty v, has_typeb ty v = true /\ write ty v = OErr EInvalid
-  /\ ty = TStruct [(true, TBasic BU8); (true, TPtr (TBasic BI8))] /\ v = VStruct [VN 1; VNil].
-Proof. exists (TStruct [(true, TBasic BU8); (true, TPtr (TBasic BI8))]), (VStruct [VN 1; VNil]). repeat split. Qed.
-
-Lemma w_iface_field : exists ty v b, has_typeb ty v = true /\ write ty v = OOk b /\ fst (read ty b) = OErr EUnsupported
-  /\ ty = TStruct [(true, TIface)] /\ v = VStruct [VIface (TBasic BI32) (VZ 3)].
-Proof. exists (TStruct [(true, TIface)]), (VStruct [VIface (TBasic BI32) (VZ 3)]), [0; 0; 0; 3]. repeat split. Qed.
-
-Lemma w_ptr_iface : write (TPtr TIface) (VPtr (VIface (TBasic BI32) (VZ 5))) = OOk [0; 0; 0; 5]
-  /\ write (TPtr TIface) (VPtr (VIface (TStruct []) (VStruct []))) = OErr EUnsupported
-  /\ write (TStruct [(true, TIface)]) (VStruct [VIface (TStruct []) (VStruct [])]) = OOk [].
-Proof. repeat split. Qed.
-
-Lemma unsupported_kinds :
-  (forall b v, basic_ok b v = true -> write (TNamed b) v = OErr EUnsupported /\ forall bs, fst (read (TNamed b) bs) = OErr EUnsupported) /\
-  (forall z, write TInt (VZ z) = OErr EUnsupported /\ forall bs, fst (read TInt bs) = OErr EUnsupported) /\
-  (forall n, write TUint (VN n) = OErr EUnsupported /\ forall bs, fst (read TUint bs) = OErr EUnsupported) /\
-  (forall v, v = VNil \/ v = VOpaque -> write TMap v = OErr EUnsupported /\ write TChan v = OErr EUnsupported /\ write TFunc v = OErr EUnsupported) /\
-  write TIface VNil = OErr EUnsupported /\
-  (forall t, (forall b, t <> TBasic b) -> t <> TSlice false (TBasic BU8) -> write (TPtr t) VNil = OErr EInvalid) /\
-  (forall t bs, fst (read (TPtr t) bs) = OErr EUnsupported) /\ (forall bs, fst (read TIface bs) = OErr EUnsupported).
-Proof.
-  split; [intros b v H; split; [destruct b, v; try discriminate H; reflexivity|reflexivity]|].
-  split; [intros z; split; reflexivity|].
-  split; [intros n; split; reflexivity|].
-  split; [intros v [-> | ->]; repeat split; reflexivity|].
-  split; [reflexivity|].
-  split; [|split; reflexivity].
-  intros t H H0. destruct t as [b| | | |nm e| | | | | | |]; try reflexivity.
-  - exfalso. apply (H b). reflexivity.
-  - destruct nm; try reflexivity. destruct e as [b| | | | | | | | | | |]; try reflexivity. destruct b; try reflexivity.
-    exfalso. apply H0. reflexivity.
-Qed.
-
-Lemma w_write_nil_ptr : forall b, has_typeb (TPtr (TBasic b)) VNil = true /\ write (TPtr (TBasic b)) VNil = OPanic WNilDeref.
-Proof. intros b. split; reflexivity. Qed.
-Lemma w_write_nil_bytes_ptr : write (TPtr (TSlice false (TBasic BU8))) VNil = OOk [0; 0; 0; 0].
-Proof. reflexivity. Qed.
-
-Lemma w_read_nil_target : read_call (TgtNilPtr (TBasic BI8)) [7] = OPanic WNilDeref /\ read_call (TgtNilPtr (TBasic BI8)) [] = OErr EEOF
-  /\ read_call (TgtNilPtr (TStruct [])) [7] = OErr EInvalid /\ read_call TgtNonPtr [7] = OErr EInvalid.
-Proof. repeat split. Qed.
-
-(** a 4-byte input that makes Read request 32 GiB before looking at any element *)
-Lemma w_alloc : fst (read (TSlice false (TBasic BU64)) [255; 255; 255; 255]) = OErr EEOF
-  /\ fst (snd (read (TSlice false (TBasic BU64)) [255; 255; 255; 255])) = 34359738360.
-Proof. split; vm_compute; reflexivity. Qed.
-(** a 4-byte input that makes Read iterate 2^32-1 times *)
-Lemma w_loop : snd (snd (read (TSlice false (TStruct [])) (put_u32 4294967295))) = 4294967295.
-Proof.
-  destruct (slice_cost_wire false (TStruct []) (put_u32 4294967295) 4294967295 [] eq_refl) as [_ H].
-  - rewrite <- (app_nil_r (put_u32 4294967295)). apply rd_u32_put. lia.
-  - apply H. reflexivity.
-Qed.
-
-Lemma w_read_into_clobber :
-  read_into_vars [(TBasic BU8, VN 9); (TBasic BU8, VN 9)] [1] = ([VN 1; VN 9], OErr EEOF).
-Proof. reflexivity. Qed.
-
-(** the reader accepts encodings the writer never produces *)
-Lemma w_noncanonical : fst (read (TBasic BBool) [2]) = OOk (VB true, []) /\ rd_uvarint [128; 0] = Ok (0, []) /\ put_uvarint 0 = [0].
-Proof. repeat split. Qed.
-
-Lemma w_readbytes_negative : rd_bytes_z (-1) [1; 2; 3] = OPanic WSliceBounds.
-Proof. reflexivity. Qed.
-
-(** signed values: the writer's conversion is two's complement *)
-Lemma w_signed : put_i8 (-1) = [255] /\ put_i16 (-2) = [255; 254] /\ put_varint (-1) = [1] /\ put_varint 1 = [2]
-  /\ put_varint (-9223372036854775808) = [255; 255; 255; 255; 255; 255; 255; 255; 255; 1].
-Proof. repeat split. Qed.
